@@ -71,14 +71,43 @@ func init() {
 		"verifrt.ExactShl":      func(fr *frame, a []value) value { return fr.i.exact(token.SHL, a[0], a[1]) },
 		"verifrt.ExactMulDiv64": vExactMulDiv64,
 		"verifrt.Stamp":         func(fr *frame, a []value) value { fr.i.stamp++; return fr.i.stamp },
-		"verifrt.And":           func(fr *frame, a []value) value { return fr.i.andV(a[0], a[1]) },
-		"verifrt.Or":            func(fr *frame, a []value) value { return fr.i.orV(a[0], a[1]) },
-		"verifrt.Not":           func(fr *frame, a []value) value { return fr.i.notV(a[0]) },
-		"verifrt.Implies":       func(fr *frame, a []value) value { return fr.i.orV(fr.i.notV(a[0]), a[1]) },
-		"verifrt.B2I":           func(fr *frame, a []value) value { return fr.i.iteV(a[0], int(1), int(0)) },
-		"verifrt.IteInt":        func(fr *frame, a []value) value { return fr.i.iteV(a[0], a[1], a[2]) },
-		"verifrt.IteU64":        func(fr *frame, a []value) value { return fr.i.iteV(a[0], a[1], a[2]) },
-		"verifrt.IteByte":       func(fr *frame, a []value) value { return fr.i.iteV(a[0], a[1], a[2]) },
+		"verifrt.GhostPut": func(fr *frame, a []value) value {
+			fr.i.ghost()[fr.i.concString(a[0], "name")] = a[1]
+			return nil
+		},
+		"verifrt.GhostGet": func(fr *frame, a []value) value {
+			if v, ok := fr.i.ghost()[fr.i.concString(a[0], "name")]; ok {
+				return v
+			}
+			return iface{}
+		},
+		"verifrt.GhostInt": func(fr *frame, a []value) value {
+			if v, ok := fr.i.ghost()[fr.i.concString(a[0], "name")]; ok {
+				if n, ok := v.(iface).v.(int); ok {
+					return n
+				}
+			}
+			return 0
+		},
+		"verifrt.GhostAdd": func(fr *frame, a []value) value {
+			g := fr.i.ghost()
+			name := fr.i.concString(a[0], "name")
+			n := 0
+			if v, ok := g[name]; ok {
+				n, _ = v.(iface).v.(int)
+			}
+			n += a[1].(int)
+			g[name] = iface{t: types.Typ[types.Int], v: n}
+			return n
+		},
+		"verifrt.And":     func(fr *frame, a []value) value { return fr.i.andV(a[0], a[1]) },
+		"verifrt.Or":      func(fr *frame, a []value) value { return fr.i.orV(a[0], a[1]) },
+		"verifrt.Not":     func(fr *frame, a []value) value { return fr.i.notV(a[0]) },
+		"verifrt.Implies": func(fr *frame, a []value) value { return fr.i.orV(fr.i.notV(a[0]), a[1]) },
+		"verifrt.B2I":     func(fr *frame, a []value) value { return fr.i.iteV(a[0], int(1), int(0)) },
+		"verifrt.IteInt":  func(fr *frame, a []value) value { return fr.i.iteV(a[0], a[1], a[2]) },
+		"verifrt.IteU64":  func(fr *frame, a []value) value { return fr.i.iteV(a[0], a[1], a[2]) },
+		"verifrt.IteByte": func(fr *frame, a []value) value { return fr.i.iteV(a[0], a[1], a[2]) },
 
 		// ---- fmt / errors
 		"fmt.Errorf":   fmtErrorf,
@@ -809,4 +838,11 @@ func init() {
 func (i *interpreter) zeroLike(x value) value {
 	k, _ := kindOfValue(x)
 	return concreteOfKind(k, new(big.Int))
+}
+
+func (i *interpreter) ghost() map[string]value {
+	if i.ghostState == nil {
+		i.ghostState = map[string]value{}
+	}
+	return i.ghostState
 }
